@@ -308,6 +308,17 @@ func PanicIsSDK(stack string) bool {
 	return false
 }
 
+// BubbleStacks returns the stacks of all goroutines of the calling goroutine's
+// own bubble (call it from inside a bubble).
+func BubbleStacks() string {
+	hb := make([]byte, 256)
+	b := bubbleHdr.FindString(string(hb[:runtime.Stack(hb, false)]))
+	if b == "" {
+		return ""
+	}
+	return stacksOfBubbles(b)
+}
+
 // Bubble runs fn inside a synctest bubble. A bubble deadlock (every goroutine
 // durably blocked, no timer pending) is recorded as violation key
 // "<keyPrefix>deadlock"; goroutines left behind when fn returns as
